@@ -218,6 +218,27 @@ fn metamorphic(ctx: &mut Ctx) {
         data_dyn.insert("pnames".into(), Value::Array(seq.iter().map(|n| Value::scalar(n.clone())).collect()));
         let o_dyn = render_text(&parser, &src_tmpl(&dyn_t), &data_dyn);
         let o_lit = render_text(&parser, &src_tmpl(&lit_t), &data_dyn);
+        // NAME-SCOPE: the name expression is evaluated in the CALLER's scope — an argument keyed like the
+        // name variable binds only inside the partial and cannot redirect the tag
+        let other = avail[0].clone();
+        let mk2 = |name: Expr| if use_include { Node::Include(name, vec![("pn2".into(), lit_s(&other))]) } else { Node::Render(name, RForm::Plain, vec![("pn2".into(), lit_s(&other))]) };
+        let mut ns_dyn = pre1.clone();
+        ns_dyn.push(text(OPEN));
+        ns_dyn.push(mk2(var("pn2")));
+        ns_dyn.push(text(CLOSE));
+        let mut ns_lit = pre1.clone();
+        ns_lit.push(text(OPEN));
+        ns_lit.push(mk2(lit_s(&callee)));
+        ns_lit.push(text(CLOSE));
+        data_dyn.insert("pn2".into(), Value::scalar(callee.clone()));
+        let o_ns_dyn = render_text(&parser, &src_tmpl(&ns_dyn), &data_dyn);
+        let o_ns_lit = render_text(&parser, &src_tmpl(&ns_lit), &data_dyn);
+        if let (Some(x), Some(y)) = (between(&o_ns_dyn, OPEN, CLOSE), between(&o_ns_lit, OPEN, CLOSE)) {
+            if x != y {
+                ctx.emit(render_case("c08", "NAME-SCOPE", &ns_dyn, &data_dyn, &partials, &o_ns_dyn));
+                continue;
+            }
+        }
         let mut kind = "meta".to_string();
         if let (Some(x), Some(y)) = (between(&o_dyn, OPEN, CLOSE), between(&o_lit, OPEN, CLOSE)) {
             if x != y {
